@@ -56,6 +56,18 @@ def select(ctx, cases):
 
 def run(ctx):
     t0 = time.time()
+    # build the driver and the probe while TLC runs (the machine is shared: every second counts)
+    import threading
+    built = {}
+
+    def build():
+        try:
+            built["probe"] = ctx.probe("limits")
+            ctx.build_vdrive("status")
+        except Exception as e:      # re-raised in the main thread
+            built["err"] = e
+    th = threading.Thread(target=build)
+    th.start()
     # 1. design level + 2. cases (one TLC run: StatusRunners_MC model-checks and writes the case file)
     r = ctx.tlc("StatusRunners_MC", cfg=ctx.pick("StatusRunners_MCquick.cfg", "StatusRunners_MC.cfg"), workers=4, timeout=600)
     ctx.tlc_ok("StatusRunners MC", r)
@@ -66,8 +78,10 @@ def run(ctx):
     else:
         ess, rest = select(ctx, ctx.read_ndjson(os.path.join(r.dir, "cases.ndjson")))
     # 3. real runs
-    probe = ctx.probe("limits")
-    ctx.build_vdrive("status")
+    th.join()
+    if "err" in built:
+        raise built["err"]
+    probe = built["probe"]
     # optional cases run until this many seconds after the start of the check (at least 10 s of them)
     budget = max(ctx.pick(55, 400) - (time.time() - t0), 10)
     cases = ess + rest
